@@ -28,8 +28,8 @@ def prop(id, roots, bounded=(), paper=(), assumptions=(), level="other", expl=""
 prop("C01", BACKPROP,
      bounded=[("TestDAG", "global half of C01: every back edge is applied exactly once, after the gradient of its source is complete, so each tracked tensor receives the total derivative; additivity over graphs sharing leaves; polynomial time", "all DAGs with <= 4 (quick) / <= 5 (thorough) interior nodes over {Scale, Exp, Mul, Add, Sub, SumAlong, Slice, Concat}, every fan-out / reconvergence pattern, tracked/untracked leaf assignments, values from VERIF_SEED")],
      paper=["CHAIN: local accumulation (proved) + each rule is the VJP (C02) + every edge applied once after its source is complete (bounded) => total derivative (multivariate chain rule)"],
-     assumptions=["termination of the recursive walk relies on acyclicity of the graph (edges point to tensors created earlier); not proved"],
-     expl="Local half proved: the seed is all ones of the root's shape; backward marks the target spent before invoking the edge function, accumulates by element-wise addition (accumulateGrad), walks every back edge, stops at the first error, writes only tracked contexts, keeps the graph invariant. Global half (each edge once, in topological order) is a whole-graph property decided by the bounded stand-in.")
+     assumptions=["dag(): acyclicity of the back-edge graph (a strict ghost order `older` on contexts, every edge from a younger to an older context) is a precondition of consumersFirst / backward / BackPropagate that no operation's contract establishes (no global allocation clock in the heap model)", "termination of the recursive walk is not proved (partial correctness)"],
+     expl="Local half proved: the seed is all ones of the root's shape; backward marks the target spent before invoking the edge function, accumulates by element-wise addition (accumulateGrad), walks every back edge, stops at the first error, writes only tracked contexts, keeps the graph invariant. The order of the walk is proved as well: consumersFirst (depth-first search with a visited map, recursive closure, reversal loop) returns the root first, each reachable tracked context exactly once and before every tracked context it holds an edge to (topological order), under the acyclicity precondition dag(). That every tensor therefore receives the total derivative (each edge once, after its source is complete, summed) is the paper lemma CHAIN, cross-checked by the bounded stand-in.")
 prop("C02", G(RULES),
      bounded=[("TestRuleValues", "values of the sigma-operation rules (Sum/Max/Min/Avg/Var/Std/MeanAlong, Dot, MatMul) and a cross-check of all 33 rules against central finite differences", "all operand shapes of rank <= 3 with sizes <= 3, every dim, every tracked subset, non-uniform upstream weights (the op is followed by Mul with a random untracked tensor)")],
      paper=["derivative table of DESIGN.md 3.5 (calculus)", "PROD, SUM-EXT (DESIGN.md section 8); LEX is machine-checked (lemmas valSucc ... lexUnsq, lexSq)"],
